@@ -390,7 +390,7 @@ func (w *c11World) dump() (bufs, tabs []string) {
 type c11Snap struct {
 	bufs, tabs, seqs, origins []string
 	lens                      []int
-	infos                     []interface{}
+	infos                     []string
 }
 
 func (w *c11World) snapshot() c11Snap {
@@ -399,7 +399,7 @@ func (w *c11World) snapshot() c11Snap {
 	for _, q := range w.seqs {
 		s.seqs = append(s.seqs, encSeq(q))
 		s.lens = append(s.lens, gts.Len(q))
-		s.infos = append(s.infos, q.Info())
+		s.infos = append(s.infos, fmt.Sprintf("%#v", q.Info())) // rendered now: a later in-place write must not change the snapshot
 	}
 	for _, o := range w.origins {
 		s.origins = append(s.origins, o.String())
@@ -426,8 +426,8 @@ func (a c11Snap) diff(b c11Snap) string {
 		if a.lens[i] != b.lens[i] {
 			return fmt.Sprintf("Len of sequence %d changed: %d -> %d", i, a.lens[i], b.lens[i])
 		}
-		if !reflect.DeepEqual(a.infos[i], b.infos[i]) {
-			return fmt.Sprintf("Info of sequence %d changed", i)
+		if a.infos[i] != b.infos[i] {
+			return fmt.Sprintf("Info of sequence %d changed: %s -> %s", i, a.infos[i], b.infos[i])
 		}
 	}
 	for i := range a.origins {
@@ -947,7 +947,15 @@ func (r *Run) c11Programs(gb bool, rounds int) {
 			r.count(name + "/" + strings.Fields(strings.Trim(o, "()"))[0])
 		}
 		r.eval(line, true)
-		_, viol := c11Prog(parseLine(line)[1:], gb, true)
+		viol := func() (viol []c11Viol) {
+			defer func() {
+				if e := recover(); e != nil {
+					viol = append(viol, c11Viol{"a program of library calls on shared arguments does not panic", fmt.Sprint(e)})
+				}
+			}()
+			_, viol = c11Prog(parseLine(line)[1:], gb, true)
+			return viol
+		}()
 		for _, v := range viol {
 			r.fail(Failure{Oracle: v.clause, Op: line, Got: v.detail})
 		}
